@@ -79,6 +79,27 @@ CLAIMED.update({
   design="DESIGN.md §4.C18"),
 })
 
+CLAIMED.update({
+ "C07": dict(
+  text="Deductive proof that each leaf ranker (booleans, bytes, runes, signed, unsigned, floats, strings, complex) computes the natural rank of its kind over the full symbolic domain (loop-free code, complete proofs), "
+       "with SMT lemmas that these natural ranks are total preorders (float/complex transitivity fails exactly at NaN and at the complex branch cut: recorded known findings, re-proved under their guards); "
+       "of rankIntrinsics' kind dispatch (every supported reflect kind goes to the right ranker with the right conversions; panics only for unsupported kinds); of rankValues' treatment of undefined/nil values "
+       "(nil ranks before every defined value) and of mixed types (ordered by type name); and of rankArrays: lexicographic order with a proper prefix first, including the operand swap. "
+       "Termination of the whole mutually recursive traversal is proved by a lexicographic variant (see C08).",
+  note="NOT decided deductively (no contract within reach; reflective code): that the lexicographic/keyed lifts of a preorder are again preorders (standard mathematics, not mechanised), rankMaps beyond its empty/prefix cases "
+       "(key arrays are sorted through reflection), rankSequences/rankInterfaces/rankStructures results (reflect Method/Call/Field), and insertion-order independence for maps. "
+       "Assumed contracts for reflect accessors (pure, kind-correct, non-panicking), cmplx.Abs/Phase as pure functions, Go string < as a strict total order, getType (trusted, string manipulation). "
+       "Known findings: NaN and complex branch-cut break transitivity.",
+  design="DESIGN.md §4.C07"),
+ "C08": dict(
+  text="Deductive proof of the collator's depth discipline and termination on the real reflective code: every private compare*/rank* function restores depth_ on normal exits, the public CompareValues/RankValues restore it on panics too "
+       "(so a depth-limit panic leaves the collator usable), the mutual recursion is bounded by the lexicographic variant (maximum - depth, function rank, pointer nesting / operand swap) — which is how the self-containing-association stack overflow was found and fixed — "
+       "plus agreement lemmas compare == (rank == Equal) per primitive kind (floats/complex: known findings at NaN and at rounding collisions), compareArrays = same length and element-wise equal, compareValues' nil/undefined/mixed-type cases, compareMaps size cases.",
+  note="NOT decided deductively: structural equality through reflect Method/Call (sequences, interfaces), map value comparison beyond sizes, single-point-mutation sensitivity over the whole universe. "
+       "Assumed: reflect accessors pure/non-panicking, finite pointer nesting (ptrh), reflect.MapIter delivers rlen entries. Known findings: NaN, complex rounding collisions.",
+  design="DESIGN.md §4.C08"),
+})
+
 NOT_YET = {}
 
 TECH = "contract-based deductive verification: weakest-precondition style VCs generated from go/ssa of /repo, contracts in //go:build verif comment files, discharged by z3 5.1 / z3 4.8 / cvc5"
